@@ -475,9 +475,50 @@ func init() {
 	// outgoing HTTP request through the heimdall client fails (no response, an error)
 	E("github.com/spf13/viper.GetString", func(fr *frame, args []value) value { return "" })
 	E("net/http.NewRequest", func(fr *frame, args []value) value {
-		// an outgoing request is only ever handed to a client whose Do is stubbed above
-		v := zero(lookupNamed(fr.i.prog, "net/http", "Request"))
+		// an outgoing request is only ever handed to a client whose Do is modelled: method and URL
+		// are kept (URL text in RequestURI) for the scripted remote to log
+		rt := lookupNamed(fr.i.prog, "net/http", "Request")
+		v := zero(rt)
+		st := v.(structure)
+		st[fieldIndex(rt, "Method")] = args[0]
+		st[fieldIndex(rt, "RequestURI")] = args[1]
+		st[fieldIndex(rt, "Header")] = makeMap(types.Typ[types.String], 0)
 		return tuple{&v, iface{}}
+	})
+	// the scripted remote (h.Remote): the k-th request made through an http.Client gets the k-th
+	// page with status 200; requests beyond the script get an empty array; without a script there
+	// is no network
+	E("(*net/http.Client).Do", func(fr *frame, args []value) value {
+		p := fr.i.path
+		e := p.env
+		if e.remotePages == nil {
+			return tuple{(*value)(nil), fr.i.mkError("dial tcp: network is unreachable (gosx: no network)")}
+		}
+		uri := ""
+		if rp, ok := args[1].(*value); ok && rp != nil {
+			rt := lookupNamed(fr.i.prog, "net/http", "Request")
+			if sv, ok := (*rp).(structure)[fieldIndex(rt, "RequestURI")].(string); ok {
+				uri = sv
+			}
+		}
+		e.remoteRequests = append(e.remoteRequests, uri)
+		page := "[]"
+		if e.remoteServed < len(e.remotePages) {
+			page = e.remotePages[e.remoteServed]
+		}
+		e.remoteServed++
+		path := fmt.Sprintf("/gosx/remote/page-%d", e.remoteServed)
+		e.fsMkdir("/gosx/remote")
+		e.files[path] = bytesVal([]byte(page))
+		respT := lookupNamed(fr.i.prog, "net/http", "Response")
+		rv := zero(respT)
+		rs := rv.(structure)
+		rs[fieldIndex(respT, "StatusCode")] = 200
+		rs[fieldIndex(respT, "Status")] = "200 OK"
+		rs[fieldIndex(respT, "Header")] = makeMap(types.Typ[types.String], 0)
+		fileT := types.NewPointer(lookupNamed(fr.i.prog, "os", "File"))
+		rs[fieldIndex(respT, "Body")] = iface{fileT, box(&fileModel{path: path, readonly: true})}
+		return tuple{&rv, iface{}}
 	})
 	E("(*github.com/gojektech/heimdall/v6/httpclient.Client).Do", func(fr *frame, args []value) value {
 		return tuple{(*value)(nil), fr.i.mkError("dial tcp: network is unreachable (gosx: no network)")}
@@ -1051,6 +1092,107 @@ func init() {
 		return iface{iv.t, m.clone()}
 	})
 	E("runtime.Stack", func(fr *frame, args []value) value { return 0 })
+
+	// ---- strings.Builder (its source uses unsafe): the content lives in the buf field
+	sbBuf := func(fr *frame, recv value) *value {
+		pp := recvPtr(recv, "strings.Builder")
+		bt := lookupNamed(fr.i.prog, "strings", "Builder")
+		st := (*pp).(structure)
+		return &st[fieldIndex(bt, "buf")]
+	}
+	sbGet := func(bp *value) []value {
+		if bs, ok := (*bp).([]value); ok {
+			return bs
+		}
+		return nil
+	}
+	E("(*strings.Builder).Grow", func(fr *frame, args []value) value { return nil })
+	E("(*strings.Builder).Reset", func(fr *frame, args []value) value { *sbBuf(fr, args[0]) = []value(nil); return nil })
+	E("(*strings.Builder).Len", func(fr *frame, args []value) value { return len(sbGet(sbBuf(fr, args[0]))) })
+	E("(*strings.Builder).Cap", func(fr *frame, args []value) value { return len(sbGet(sbBuf(fr, args[0]))) })
+	E("(*strings.Builder).WriteString", func(fr *frame, args []value) value {
+		bp := sbBuf(fr, args[0])
+		nb := strBytes(args[1])
+		*bp = append(append([]value{}, sbGet(bp)...), nb...)
+		return tuple{len(nb), iface{}}
+	})
+	E("(*strings.Builder).Write", func(fr *frame, args []value) value {
+		bp := sbBuf(fr, args[0])
+		nb, _ := args[1].([]value)
+		*bp = append(append([]value{}, sbGet(bp)...), nb...)
+		return tuple{len(nb), iface{}}
+	})
+	E("(*strings.Builder).WriteByte", func(fr *frame, args []value) value {
+		bp := sbBuf(fr, args[0])
+		*bp = append(append([]value{}, sbGet(bp)...), args[1])
+		return iface{}
+	})
+	E("(*strings.Builder).WriteRune", func(fr *frame, args []value) value {
+		bp := sbBuf(fr, args[0])
+		r, ok := args[1].(int32)
+		if !ok {
+			panic(unsupported{"strings.Builder.WriteRune of a symbolic rune"})
+		}
+		nb := strBytes(string(r))
+		*bp = append(append([]value{}, sbGet(bp)...), nb...)
+		return tuple{len(nb), iface{}}
+	})
+	E("(*strings.Builder).String", func(fr *frame, args []value) value {
+		bs := sbGet(sbBuf(fr, args[0]))
+		if b, ok := concBytes(bs); ok {
+			return string(b)
+		}
+		return symstr(append([]value{}, bs...))
+	})
+
+	// ---- internal/bytealg: the assembly leaves of strings/bytes, on concrete arguments, so that
+	// standard-library code above them (net/url, strings.Cut, ...) can be interpreted from source
+	cs := func(v value, what string) string {
+		if b, ok := concBytes(v); ok {
+			return string(b)
+		}
+		panic(unsupported{"internal/bytealg." + what + " on symbolic bytes"})
+	}
+	cb := func(v value, what string) byte {
+		if b, ok := v.(uint8); ok {
+			return b
+		}
+		panic(unsupported{"internal/bytealg." + what + " on a symbolic byte"})
+	}
+	E("internal/bytealg.IndexByteString", func(fr *frame, args []value) value {
+		return strings.IndexByte(cs(args[0], "IndexByteString"), cb(args[1], "IndexByteString"))
+	})
+	E("internal/bytealg.IndexByte", func(fr *frame, args []value) value {
+		return strings.IndexByte(cs(args[0], "IndexByte"), cb(args[1], "IndexByte"))
+	})
+	E("internal/bytealg.LastIndexByteString", func(fr *frame, args []value) value {
+		return strings.LastIndexByte(cs(args[0], "LastIndexByteString"), cb(args[1], "LastIndexByteString"))
+	})
+	E("internal/bytealg.LastIndexByte", func(fr *frame, args []value) value {
+		return strings.LastIndexByte(cs(args[0], "LastIndexByte"), cb(args[1], "LastIndexByte"))
+	})
+	E("internal/bytealg.IndexString", func(fr *frame, args []value) value {
+		return strings.Index(cs(args[0], "IndexString"), cs(args[1], "IndexString"))
+	})
+	E("internal/bytealg.Index", func(fr *frame, args []value) value {
+		return strings.Index(cs(args[0], "Index"), cs(args[1], "Index"))
+	})
+	E("internal/bytealg.CountString", func(fr *frame, args []value) value {
+		return strings.Count(cs(args[0], "CountString"), string([]byte{cb(args[1], "CountString")}))
+	})
+	E("internal/bytealg.Count", func(fr *frame, args []value) value {
+		return strings.Count(cs(args[0], "Count"), string([]byte{cb(args[1], "Count")}))
+	})
+	E("internal/bytealg.Equal", func(fr *frame, args []value) value {
+		return cs(args[0], "Equal") == cs(args[1], "Equal")
+	})
+	E("internal/bytealg.Compare", func(fr *frame, args []value) value {
+		return strings.Compare(cs(args[0], "Compare"), cs(args[1], "Compare"))
+	})
+	E("internal/bytealg.MakeNoZero", func(fr *frame, args []value) value {
+		n := int(fr.i.path.concInt(args[0], "MakeNoZero"))
+		return bytesVal(make([]byte, n))
+	})
 
 	// ---- request path (C16 route harness): requests built by the harnesses carry no
 	// form, no query string and Content-Length 0, for which echo's DefaultBinder.Bind
